@@ -629,7 +629,7 @@ fn directed_scenario() -> (Scenario, Vec<String>) {
 
 pub fn run(ctx: &Ctx, rep: &mut Report, replay: Option<&serde_json::Value>) {
     rep.level = "fault_enumeration".into();
-    rep.rule("E-crash over E-rpki: seeded two-run scenarios (1-2 TALs, 3-7 CAs over 2 rsync modules; per CA one of: changed, unchanged, never succeeded before or now, succeeding for the first time, newly appearing in / vanished from the parent's manifest, incompletely published new version; optionally an unreachable module); pre-state = complete run over version 1; victim = child process running against version 2 with one validation thread, killed by abort() at kill point k, for every k of the victim run (all when M <= 400, else first/last 20, every label change and a seeded sample of 400); a case = (scenario, k); oracles (i) stored-point files read with routinator's reader equal the complete previous or complete new content per CA, (ii) next normal run equals the never-interrupted reference (payload and store), (iii) vrps --update-after 1 / vrps --noupdate / validate / update / dump via the hooked binary exit 0 wherever they do on the uninterrupted caches, (iv) a network-less run yields the data set of the observed complete versions; non-trivial = the process was killed at a point that is neither the first nor the last of the run and lies inside a multi-step file operation (stored point update, truncating header/status re-write, trust anchor write, cleanup removal); distinct by (scenario, k)");
+    rep.rule("E-crash over E-rpki: seeded two-run scenarios (scenario 0: fixed covering shape with every role once, 9 CAs; others 1-2 TALs, 3-7 CAs over 2-3 rsync modules; per CA one of: changed, unchanged, never succeeded before or now, succeeding for the first time, newly appearing in / vanished from the parent's manifest, incompletely published new version, never succeeded and vanished; optionally an unreachable module); pre-state = complete run over version 1, alternately with `dirty` (headers of never-succeeded points survive, so the victim takes the last-attempt re-write path) and with cleanup; victim = child process running against version 2 with one validation thread, killed by abort() at kill point k, for every k of the victim run (all when M <= 400, else first/last 20, every label change and a seeded sample of 400); a case = (scenario, k); oracles (i) stored-point files read with routinator's reader equal the complete previous or complete new content per CA, (ii) next normal run equals the never-interrupted reference (payload and store), (iii) vrps --update-after 1 / vrps --noupdate / validate / update / dump via the hooked binary exit 0 wherever they do on the uninterrupted caches, (iv) a network-less run yields the data set of the observed complete versions; non-trivial = the process was killed at a point that is neither the first nor the last of the run and lies inside a multi-step file operation (stored point update, truncating header/status re-write, trust anchor write, cleanup removal); distinct by (scenario, k)");
     rep.assume("the kill is abort() in the victim process (no destructors, buffered data lost, temporary files left): faithful to SIGKILL; re-ordering or loss of completed writes by a power failure is out of scope");
     rep.assume("kill points are the labelled fs steps of store.rs and utils/fatal.rs (feature verif-hooks); fatal::write_file is emulated as create-empty / half-written / complete; individual write() calls inside a header or status write are not split further");
     rep.assume("the fake rsync transport (rvrsync) is a separate process and is never killed; partial module copies are not part of this property");
@@ -654,7 +654,7 @@ pub fn run(ctx: &Ctx, rep: &mut Report, replay: Option<&serde_json::Value>) {
         }
         return;
     }
-    let n_scen = ctx.tier.pick(3usize, 40);
+    let n_scen = ctx.tier.pick(3usize, 24);
     let genomes = sample_strategy(&genome(160), ctx.seed_for("scenarios"), n_scen);
     let mut per_scenario = Vec::new();
     let mut all_points = true;
